@@ -10,3 +10,38 @@ pub fn settings_snapshot(s: &Settings) -> Snap {
 pub fn settings_strings(s: &Settings) -> (usize, usize) {
     (s.input_type.len(), s.exclude.len())
 }
+
+
+// ---------------------------------------------------------------------------------------------------------------
+/// C16: the IntConst action never panics, whatever digit string the IntConst token regex admits (fix 7a0bb14);
+/// values that fit in u32 are returned exactly.  bounded(<= 11 digits: 11 is the first length at which u32 parsing fails
+/// for every string; 10 digits already overflow above 4294967295).
+#[kani::proof]
+#[kani::unwind(14)]
+fn int_const_total() {
+    use crate::lang::rustemo::{State, TokenKind};
+    use rustemo::{LRContext, Position, Token};
+    const N: usize = 11;
+    let buf: [u8; N] = kani::any();
+    let len: usize = kani::any();
+    kani::assume(1 <= len && len <= N);
+    let mut i = 0;
+    while i < N {
+        kani::assume(buf[i] >= b'0' && buf[i] <= b'9');
+        i += 1;
+    }
+    let s = std::str::from_utf8(&buf[..len]).unwrap();
+    let ctx: LRContext<str, State, TokenKind> = LRContext::new(Position::new(0, 1, 0));
+    let tok = Token { kind: TokenKind::IntConst, value: s, span: Default::default() };
+    let v: u32 = crate::lang::rustemo_actions::int_const(&ctx, tok).into();
+    // independent evaluation in u64
+    let mut w: u64 = 0;
+    let mut i = 0;
+    while i < len {
+        if w <= u32::MAX as u64 { w = w * 10 + (buf[i] - b'0') as u64; }
+        i += 1;
+    }
+    if w <= u32::MAX as u64 { assert!(v as u64 == w); }
+    kani::cover!(w > u32::MAX as u64, "does not fit in u32");
+    kani::cover!(len == 10 && w <= u32::MAX as u64, "ten digits that fit");
+}
